@@ -31,6 +31,35 @@ def tr(seq):
     return z3.Concat(*parts) if len(parts) > 1 else parts[0]
 
 
+# categories met while translating (other than \d); they are translated for ASCII subjects only, so the caller
+# must restrict its string variables to ASCII when this set is not empty (see ascii_only)
+USED_CATEGORIES = set()
+
+
+def ascii_only(s):
+    return z3.InRe(s, z3.Star(z3.Range(chr(0), chr(127))))
+
+
+def category(av):
+    word = z3.Union(z3.Range("a", "z"), z3.Range("A", "Z"), z3.Range("0", "9"), z3.Re("_"))
+    space = charset(" \t\n\r\x0b\x0c")
+    digit = z3.Range("0", "9")
+    if av is sp.CATEGORY_DIGIT:
+        return digit
+    USED_CATEGORIES.add(str(av))
+    if av is sp.CATEGORY_NOT_DIGIT:
+        return z3.Intersect(ANY, z3.Complement(digit))
+    if av is sp.CATEGORY_WORD:
+        return word
+    if av is sp.CATEGORY_NOT_WORD:
+        return z3.Intersect(ANY, z3.Complement(word))
+    if av is sp.CATEGORY_SPACE:
+        return space
+    if av is sp.CATEGORY_NOT_SPACE:
+        return z3.Intersect(ANY, z3.Complement(space))
+    raise NotImplementedError(f"regex category {av}")
+
+
 def tr_in(items):
     neg = False
     alts = []
@@ -42,10 +71,7 @@ def tr_in(items):
         elif op is sp.RANGE:
             alts.append(z3.Range(chr(av[0]), chr(av[1])))
         elif op is sp.CATEGORY:
-            if av is sp.CATEGORY_DIGIT:
-                alts.append(z3.Range("0", "9"))
-            else:
-                raise NotImplementedError(f"regex category {av}")
+            alts.append(category(av))
         else:
             raise NotImplementedError(f"regex set item {op}")
     r = z3.Union(*alts) if len(alts) > 1 else alts[0]
